@@ -9,9 +9,9 @@ from . import core
 PID = "C14"
 LEVEL = "fault_enumeration"
 NAMES = ["a", "b", "c", "d", "e", "f", "h", "i", "j", "k", "l", "m"]
-KINDS_FILE = ["healthy", "missing", "faulting", "wrongname", "broken", "nonutf8"]
-KINDS_REG = ["healthy", "missing", "faulting"]
-ERR_OF = {"missing": ["Logic.LibraryNotFound"], "wrongname": ["Logic.LibraryNotFound"], "faulting": ["Logic.UnboundedSymbol"],
+KINDS_FILE = ["healthy", "missing", "faulting", "wrongname", "broken", "nonutf8", "nobase"]
+KINDS_REG = ["healthy", "missing", "faulting", "nobase"]
+ERR_OF = {"nobase": ["Logic.UnboundedSymbol"], "missing": ["Logic.LibraryNotFound"], "wrongname": ["Logic.LibraryNotFound"], "faulting": ["Logic.UnboundedSymbol"],
           "broken": ["Syntax."], "nonutf8": ["IO"], "cycle": ["Logic.LibraryImportCyclic"]}
 
 
@@ -37,6 +37,8 @@ def source(i, deps, kind, salt=0):
     imports = " ".join(edge(i, j, salt) for j in deps)
     imp = "(import %s) " % imports if imports else ""
     style = (i + len(deps) + sum(deps)) % 3
+    if kind == "nobase" and style == 2:
+        style = 1        # this kind never imports (scheme base): its body uses + and so faults, whatever the program itself has imported
     if style == 1 and deps:
         # one import declaration per dependency
         imp = "".join("(import %s) " % edge(i, j, salt) for j in deps)
@@ -45,6 +47,8 @@ def source(i, deps, kind, salt=0):
         imp = "(import (scheme base)) " + "".join("(import %s) " % edge(i, j, salt) for j in deps)
     name = "(g zzz)" if kind == "wrongname" else "(g %s)" % n
     body = "(define v%s no-such-variable-%s)" % (n, n) if kind == "faulting" else "(define v%s %d)" % (n, 10 + i)
+    if kind == "nobase":
+        body = "(define v%s (+ %d 0))" % (n, 10 + i)
     text = "(define-library %s %s(export v%s) (begin %s))" % (name, imp, n, body)
     if kind == "broken":
         text = "(define-library (g %s) %s(export v%s) (begin (define v%s" % (n, imp, n, n)
@@ -70,8 +74,8 @@ def reachable_outcomes(n, adj, kinds):
         seen.add(x)
         for y in adj[x]:
             dfs(y, stack | {x})
-        if k == "faulting":
-            acc.add("faulting")
+        if k in ("faulting", "nobase"):
+            acc.add(k)
     dfs(n, frozenset())
     # a cycle: some reachable loadable node can reach itself
     def reach(x):
@@ -84,7 +88,7 @@ def reachable_outcomes(n, adj, kinds):
                 if z not in out:
                     out.add(z); todo.append(z)
         return out
-    loadable = [x for x in ({n} | reach(n)) if kinds[x] in ("healthy", "faulting")]
+    loadable = [x for x in ({n} | reach(n)) if kinds[x] in ("healthy", "faulting", "nobase")]
     has_cycle = any(x in reach(x) for x in loadable)
     errs = set(acc)
     if has_cycle:
@@ -104,7 +108,7 @@ def first_error(n, adj, kinds):
             e = dfs(y, stack + [x])
             if e:
                 return e
-        return "faulting" if k == "faulting" else None
+        return k if k in ("faulting", "nobase") else None
     return dfs(n, [])
 
 
@@ -276,10 +280,14 @@ def run(tier, seed):
         hist = list(itertools.product(range(n), repeat=3))
         if n >= 3 and len(hist) > 12:
             hist = rng.sample(hist, 12) if (tier == "quick" or n >= 5) else hist
+        # some histories begin by importing (scheme base) into the program: what the program has bound must not change what a library body sees
+        hist = list(hist) + [(-1,) + h[:2] for h in hist[:: max(1, len(hist) // 4)]]
         steps = []
         for h in hist:
             steps.append({"new": spec})
             for hi, x in enumerate(h):
+                if x == -1:
+                    steps.append({"it": -1, "src": "(import (scheme base))"}); steps.append({"it": -1, "env_names": True}); continue
                 # the attempt itself is spelled as the plain name or through an import set that yields the same name
                 sp = ["(g %s)", "(only (g %s) v%s)", "(except (g %s))", "(g %s)"][(ci + hi + x) % 4]
                 steps.append({"it": -1, "src": "(import %s)" % (sp % ((NAMES[x],) * sp.count("%s")))})
@@ -316,12 +324,18 @@ def run(tier, seed):
                 ctx.violation({"what": "interpreter with these libraries could not be created", "kind": "setup", "case": desc_case, "observed": new}, {"case": desc_case})
                 ok_case = False; pos += 6; continue
             bound = set()
+            base_imported = False
             for ai, x in enumerate(h):
                 imp, names = st[pos], st[pos + 1]; pos += 2
+                if x == -1:
+                    base_imported = True
+                    if "ok" not in imp:
+                        ctx.violation({"what": "(import (scheme base)) failed", "kind": "outcome", "observed": imp, "dedupe": "base-import"}, {"case": desc_case})
+                    continue
                 ctx.evaluations += 1
                 can, errs = reachable_outcomes(x, adj, kinds)
                 kind, val = core.outcome(imp)
-                d = dict(desc_case, history=[NAMES[y] for y in h], attempt=ai, imported=NAMES[x])
+                d = dict(desc_case, history=[NAMES[y] if y >= 0 else "(scheme base)" for y in h], attempt=ai, imported=NAMES[x])
                 if imp.get("inprog"):
                     ok_case = False
                     ctx.violation(dict(d, what="a library is still marked 'being imported' after the import returned", kind="inprogress", marks=imp["inprog"],
@@ -356,6 +370,8 @@ def run(tier, seed):
                 # names bound so far: exactly the exports of the libraries imported successfully (no leak of dependencies, no decoy values)
                 kn, nv = core.outcome(names)
                 got = set(nv.keys()) if kn == "ok" and isinstance(nv, dict) else None
+                if base_imported and got is not None:
+                    got = {k for k in got if k[:1] == "v" and k[1:] in NAMES}       # the names of (scheme base) are bound too; look at the libraries' exports only
                 vals_ok = got is None or all(nv[k] == {"i": 10 + NAMES.index(k[1:])} for k in got if k[1:] in NAMES)
                 if not vals_ok:
                     ok_case = False
